@@ -154,6 +154,22 @@ class Check:
         return res
 
     def finish(self):
+        if self.tier == "thorough":
+            try:
+                from . import selfcontrol
+                ctl = selfcontrol.run_controls(self.prop)
+            except Exception as e:
+                ctl = None
+                self.errors.append(f"mutation controls could not run: {type(e).__name__}: {e}")
+            if ctl is not None:
+                self.extra_coverage["mutation_controls"] = ctl
+                # a stale catalogue entry (its target text no longer exists) is a note, not an error: the tree may
+                # legitimately have changed; a control that applies but is not caught is an analysis error
+                missed = sorted(k for k, v in ctl.items() if v in ("missed", "broken"))
+                if missed:
+                    self.errors.append(f"mutation controls not caught: {missed} (the check has lost sight of these change classes)")
+                print(f"  mutation controls: {sum(1 for v in ctl.values() if v == 'caught')} caught, "
+                      f"{len(missed)} missed, {sum(1 for v in ctl.values() if v == 'stale')} stale of {len(ctl)}")
         known, _fixed = load_known_findings()
         all_findings = [f for r in self.results for f in r.findings]
         new, listed = [], []
